@@ -58,7 +58,7 @@ fn unary_cases(shapes: &[Vec<usize>]) -> Vec<GradCase> {
                     _ => n,
                 };
                 for seed in [Some(distinct_seed(out_n)), None] {
-                    out.push(GradCase { op: op.clone(), leaves: vec![LeafSpec { dims: shape.clone(), vals: vals.clone(), tracked: true }], seed, uses: 1, passes: 1, same_operand: false, detached_clone: 0 });
+                    out.push(GradCase { op: op.clone(), leaves: vec![LeafSpec { dims: shape.clone(), vals: vals.clone(), tracked: true }], seed, uses: 1, passes: 1, same_operand: false, detached_clone: 0, view_of_first: None, swap_operands: false });
                 }
             }
         }
@@ -91,6 +91,8 @@ fn ew_case(pair: &(Vec<usize>, Vec<usize>), opi: usize, tri: usize, with_seed: b
         passes: 1,
         same_operand: false,
         detached_clone: 0,
+        view_of_first: None,
+        swap_operands: false,
     }
 }
 
@@ -103,7 +105,7 @@ fn mm_case(cfg: &MatmulCfg, tri: usize) -> Option<GradCase> {
     }
     let leaves = cfg.leaves(tr);
     let t = refmodel::ops::matmul(&T::from_f64(&cfg.a, &leaves[0].vals), cfg.ta, &T::from_f64(&cfg.b, &leaves[1].vals), cfg.tb, None).ok()?;
-    Some(GradCase { op: cfg.op(), leaves, seed: Some(distinct_seed(t.numel())), uses: 1, passes: 1, same_operand: false, detached_clone: 0 })
+    Some(GradCase { op: cfg.op(), leaves, seed: Some(distinct_seed(t.numel())), uses: 1, passes: 1, same_operand: false, detached_clone: 0, view_of_first: None, swap_operands: false })
 }
 
 fn conv_case(cfg: &ConvCfg, tri: usize) -> GradCase {
@@ -111,7 +113,7 @@ fn conv_case(cfg: &ConvCfg, tri: usize) -> GradCase {
     let leaves = cfg.leaves(tr);
     let n = cfg.image.len();
     let out_n = numel(&cfg.image[..n - 3]) * cfg.filters[0] * cfg.out_windows();
-    GradCase { op: cfg.op(), leaves, seed: Some(distinct_seed(out_n)), uses: 1, passes: 1, same_operand: false, detached_clone: 0 }
+    GradCase { op: cfg.op(), leaves, seed: Some(distinct_seed(out_n)), uses: 1, passes: 1, same_operand: false, detached_clone: 0, view_of_first: None, swap_operands: false }
 }
 
 #[derive(Clone, Debug)]
@@ -175,7 +177,7 @@ fn random_case(r: &RandRecipe) -> Option<GradCase> {
         return None;
     }
     let seed = if r.p[3] % 5 == 0 { None } else { Some(gen_vals(r.vseed ^ 99, out.numel(), VKind::Small)) };
-    Some(GradCase { op, leaves, seed, uses: 1, passes: 1, same_operand: false, detached_clone: 0 })
+    Some(GradCase { op, leaves, seed, uses: 1, passes: 1, same_operand: false, detached_clone: 0, view_of_first: None, swap_operands: false })
 }
 
 pub fn dispatch(kind: &str, v: &Value) -> Option<Outcome> {
@@ -254,7 +256,7 @@ pub fn campaigns(ctx: &Ctx) -> Stats {
                     Sum(k) => numel(&d[..d.len() - k]),
                     _ => numel(d),
                 };
-                Some(GradCase { op, leaves: vec![LeafSpec { dims: d.clone(), vals, tracked: true }], seed: Some(distinct_seed(out_n)), uses: 1, passes: 1, same_operand: false, detached_clone: 0 })
+                Some(GradCase { op, leaves: vec![LeafSpec { dims: d.clone(), vals, tracked: true }], seed: Some(distinct_seed(out_n)), uses: 1, passes: 1, same_operand: false, detached_clone: 0, view_of_first: None, swap_operands: false })
             } else {
                 let j = i - nu * 4 * N_PATTERNS as u64;
                 let (pa, pb) = ((j % N_PATTERNS as u64) as usize, ((j / N_PATTERNS as u64) % N_PATTERNS as u64) as usize);
@@ -289,7 +291,7 @@ pub fn campaigns(ctx: &Ctx) -> Stats {
                         return None;
                     }
                 }
-                Some(GradCase { op, leaves: vec![LeafSpec { dims: d, vals, tracked: true }], seed: Some(gen_vals(i + 5, out_n, VKind::Int)), uses: 1, passes: 1, same_operand: false, detached_clone: 0 })
+                Some(GradCase { op, leaves: vec![LeafSpec { dims: d, vals, tracked: true }], seed: Some(gen_vals(i + 5, out_n, VKind::Int)), uses: 1, passes: 1, same_operand: false, detached_clone: 0, view_of_first: None, swap_operands: false })
             } else {
                 let j = i - nb * bops.len() as u64 * 2;
                 let n = BOUNDARY_SIZES[(j % nb) as usize];
@@ -304,7 +306,7 @@ pub fn campaigns(ctx: &Ctx) -> Stats {
         st.merge(ctx.run_indexed("boundary-sizes-two-uses", nb * 3, None, |i| {
             let n = BOUNDARY_SIZES[(i % nb) as usize];
             let op = [Mul, Add, Sub][(i / nb) as usize].clone();
-            Some(GradCase { op, leaves: vec![LeafSpec { dims: vec![n], vals: gen_vals(i, n, VKind::Int), tracked: true }, LeafSpec { dims: vec![n], vals: gen_vals(i + 9, n, VKind::Int), tracked: true }], seed: Some(gen_vals(i + 3, n, VKind::Int)), uses: 2, passes: 1, same_operand: false, detached_clone: 0 })
+            Some(GradCase { op, leaves: vec![LeafSpec { dims: vec![n], vals: gen_vals(i, n, VKind::Int), tracked: true }, LeafSpec { dims: vec![n], vals: gen_vals(i + 9, n, VKind::Int), tracked: true }], seed: Some(gen_vals(i + 3, n, VKind::Int)), uses: 2, passes: 1, same_operand: false, detached_clone: 0, view_of_first: None, swap_operands: false })
         }));
     }
     // matmul
@@ -322,7 +324,7 @@ pub fn campaigns(ctx: &Ctx) -> Stats {
         let l = *d.last().unwrap();
         let n = numel(d);
         let vals: Vec<f64> = (0..n).map(|j| (if (j / l) % 2 == 0 { o1 } else { o2 }) + ((j * 7) % 5) as f64 * 0.5 - 1.0).collect();
-        Some(GradCase { op: OpKind::Softmax, leaves: vec![LeafSpec { dims: d.to_vec(), vals, tracked: true }], seed: Some(distinct_seed(n)), uses: 1, passes: 1, same_operand: false, detached_clone: 0 })
+        Some(GradCase { op: OpKind::Softmax, leaves: vec![LeafSpec { dims: d.to_vec(), vals, tracked: true }], seed: Some(distinct_seed(n)), uses: 1, passes: 1, same_operand: false, detached_clone: 0, view_of_first: None, swap_operands: false })
     }));
     // the same array in both operand slots (x op x, matmul(x, x^T), x^T x), 1 and 2 passes
     {
@@ -339,7 +341,7 @@ pub fn campaigns(ctx: &Ctx) -> Stats {
             let mut st = refmodel::model::RefState::forward_only();
             let h = st.new_leaf(&leaf.dims, &leaf.vals, false);
             let out = st.eval(&op, &[h, h]).ok()?;
-            Some(GradCase { op, leaves: vec![leaf.clone(), leaf], seed: Some(distinct_seed(out.numel())), uses: 1, passes, same_operand: true, detached_clone: 0 })
+            Some(GradCase { op, leaves: vec![leaf.clone(), leaf], seed: Some(distinct_seed(out.numel())), uses: 1, passes, same_operand: true, detached_clone: 0, view_of_first: None, swap_operands: false })
         }));
         // a tracked array next to a detached clone of itself (x op x.clone().untracked()), either operand order
         st.merge(ctx.run_indexed("array-next-to-its-detached-clone", ns * no * 2, None, |i| {
@@ -351,7 +353,7 @@ pub fn campaigns(ctx: &Ctx) -> Stats {
             let mut st = refmodel::model::RefState::forward_only();
             let h = st.new_leaf(&leaf.dims, &leaf.vals, false);
             let out = st.eval(&op, &[h, h]).ok()?;
-            Some(GradCase { op, leaves: vec![leaf.clone(), leaf], seed: Some(distinct_seed(out.numel())), uses: 1, passes: 1, same_operand: false, detached_clone: which })
+            Some(GradCase { op, leaves: vec![leaf.clone(), leaf], seed: Some(distinct_seed(out.numel())), uses: 1, passes: 1, same_operand: false, detached_clone: which, view_of_first: None, swap_operands: false })
         }));
         // every unary / binary operation differentiated twice / three times from the same result
         let twice: Vec<OpKind> = vec![Exp, Sigmoid, Softmax, Ln, Recip, Powf(3.0), Relu, Sum(1), Neg, ScaleR(2.0)];
@@ -363,7 +365,7 @@ pub fn campaigns(ctx: &Ctx) -> Stats {
                 let passes = 2 + (i / nt / 3) as usize;
                 let vals = gen_vals(i, numel(&d), vkind_for(&op));
                 let out_n = if let Sum(_) = op { numel(&d[..d.len() - 1]) } else { numel(&d) };
-                Some(GradCase { op, leaves: vec![LeafSpec { dims: d, vals, tracked: true }], seed: Some(gen_vals(i + 3, out_n, VKind::PosInt)), uses: 1, passes, same_operand: false, detached_clone: 0 })
+                Some(GradCase { op, leaves: vec![LeafSpec { dims: d, vals, tracked: true }], seed: Some(gen_vals(i + 3, out_n, VKind::PosInt)), uses: 1, passes, same_operand: false, detached_clone: 0, view_of_first: None, swap_operands: false })
             } else {
                 let j = i - nt * 6;
                 let mut c = ew_case(&(vec![2, 1, 3], vec![2, 3]), (j % 5) as usize, ((j / 5) % 3) as usize, true);
@@ -431,7 +433,7 @@ pub fn campaigns(ctx: &Ctx) -> Stats {
             let hs: Vec<usize> = leaves.iter().map(|l| rs.new_leaf(&l.dims, &l.vals, false)).collect();
             let out = rs.eval(&op, &hs).ok()?;
             let seed = if (z >> 50) % 6 == 0 { None } else { Some(wide_vals(z ^ 99, out.numel(), pick_base((z >> 52) as u8, gb), j, true)) };
-            Some(GradCase { op, leaves, seed, uses: 1, passes: 1, same_operand: false, detached_clone: 0 })
+            Some(GradCase { op, leaves, seed, uses: 1, passes: 1, same_operand: false, detached_clone: 0, view_of_first: None, swap_operands: false })
         }));
     }
     // dimensions at and beyond typical block / panel lengths (64 .. 130) in matmul, conv and element-wise operations
@@ -450,7 +452,7 @@ pub fn campaigns(ctx: &Ctx) -> Stats {
             let tr = [[true, false], [false, true], [true, true], [true, true]][tri];
             let leaves = vec![LeafSpec { dims: a.clone(), vals: gen_vals(i, numel(&a), VKind::Int), tracked: tr[0] }, LeafSpec { dims: b.clone(), vals: gen_vals(i + 1, numel(&b), VKind::Int), tracked: tr[1] }];
             let out_n = numel(&lead) * r * c;
-            Some(GradCase { op: Matmul { ta, tb, has_c: false }, leaves, seed: Some(gen_vals(i + 2, out_n, VKind::Int)), uses: 1, passes: 1, same_operand: false, detached_clone: 0 })
+            Some(GradCase { op: Matmul { ta, tb, has_c: false }, leaves, seed: Some(gen_vals(i + 2, out_n, VKind::Int)), uses: 1, passes: 1, same_operand: false, detached_clone: 0, view_of_first: None, swap_operands: false })
         }));
         let cv: Vec<(Vec<usize>, Vec<usize>, usize, usize)> = vec![
             (vec![6, 5, 5], vec![2, 6, 4, 4], 1, 1),
@@ -467,7 +469,7 @@ pub fn campaigns(ctx: &Ctx) -> Stats {
             let n = image.len();
             let out_n = numel(&image[..n - 3]) * filters[0] * cfg.out_windows();
             let leaves = vec![LeafSpec { dims: image.clone(), vals: gen_vals(i, numel(&image), VKind::Int), tracked: tr[0] }, LeafSpec { dims: filters.clone(), vals: gen_vals(i + 1, numel(&filters), VKind::Int), tracked: tr[1] }];
-            Some(GradCase { op: Conv { sr, sc }, leaves, seed: Some(gen_vals(i + 2, out_n, VKind::Int)), uses: 1, passes: 1, same_operand: false, detached_clone: 0 })
+            Some(GradCase { op: Conv { sr, sc }, leaves, seed: Some(gen_vals(i + 2, out_n, VKind::Int)), uses: 1, passes: 1, same_operand: false, detached_clone: 0, view_of_first: None, swap_operands: false })
         }));
         // operands of IDENTICAL shape with 64 .. 130 elements, every tracked subset
         let shapes: Vec<Vec<usize>> = vec![vec![64], vec![8, 8], vec![4, 4, 4], vec![65], vec![16, 5], vec![100], vec![128], vec![2, 65], vec![13, 10]];
@@ -478,6 +480,11 @@ pub fn campaigns(ctx: &Ctx) -> Stats {
             c.seed = Some(gen_vals(i, numel(&d), VKind::Int));
             Some(c)
         }));
+    }
+    // an array against a reshaped view of itself
+    {
+        let va = view_alias_cases();
+        st.merge(ctx.run_indexed("operand-is-a-view-of-the-other", va.len() as u64, None, |i| Some(va[i as usize].clone())));
     }
     // random values / sizes / parameters
     let (max_rank, max_size, total) = t.pick((4usize, 7usize, 240000u64), (5, 10, 1200000));
